@@ -2,6 +2,7 @@ import LocustModel.Proto
 import LocustModel.Store.Machine
 import LocustModel.Store.Spec
 import LocustModel.Store.Effects
+import LocustModel.Store.Interleave
 /-
   Shared part of the C08 / C13 / C18 drivers: parsing of history lines, execution of the machine model on them
   (with the flush inputs — planner choice and sub-partition keys — inferred from the catalogue the harness
@@ -15,6 +16,13 @@ import LocustModel.Store.Effects
      step  = `I<share>;<share>…`        share = `<hex table>:<nrows>:<hex col>=<cell>.<cell>…/<hex col>=…`
            | `F<catalogue>` | `B<catalogue>`   force_flush / background flush, with the catalogue found on disk afterwards
            | `R`                         drop + reopen
+           | INTERLEAVED flush (Store/Interleave.lean), observed through the sync-point hooks:
+             `Q`            a force_flush call from another thread was registered (it blocks until answered)
+             `Zb<k>`        the flush thread took k pending requests and ran its freeze block
+             `Zp<catalogue>` batching + persist_partitions + compactions (catalogue = the one found on disk when THIS flush had completed)
+             `Zm` `Zd` `Zx` persist_metastore / delete_orphaned_partitions / delete_wal_segments
+             `A<i>`         the harness saw the i-th `Q` call (0-based) return
+             `I…` may occur between any two of them
            | `L<hex path>,…`             (C18 only, last token) the directory listing found after the last step
      catalogue = `C_` | `C<cursor>|<hex table>:<hex dir>:<id>:<offset>:<len>:<hex key>+<hex key>|…`
   Names are kept as their protocol tokens (`x<hex>`): hex preserves byte order, which is Rust's `str` order.
@@ -106,6 +114,17 @@ structure Sim where
   nullCompacted : Bool := false
   /-- effect phases of the last step of the history (an `I`/`R` token and the `B` that may follow it) -/
   lastEff : List (List (Eff N)) := []
+  /-- interleaved machine: flush in flight, force_flush requests (Store/Interleave.lean) -/
+  fl : Option (Flight N) := none
+  pending : List Nat := []
+  done : List Nat := []
+  /-- history-only bookkeeping for the specs: number of `I` tokens, of `I` tokens since the last freeze (`Zb`/`F`/`B`),
+      number of `I` tokens before each `Q`, the `Q`s the harness saw answered, does the line contain `Z`/`Q` tokens -/
+  nIngest : Nat := 0
+  sinceFreezeN : Nat := 0
+  qMarks : List Nat := []
+  answered : List Nat := []
+  inter : Bool := false
 
 def Sim.init (maxWal : Nat) : Sim :=
   { w := initWorld (params maxWal), tables := [.metaTables], dirs := [], ops := [], lastWasFlush := false,
@@ -162,6 +181,43 @@ where
   dedupCNames (xs : List (CName N)) : List (CName N) :=
     xs.foldl (fun acc x => if acc.contains x then acc else acc ++ [x]) []
 
+/-- As `inferTable`, for a table whose buffer is ALREADY frozen (interleaved flush: `Zp` comes after `Zb`). -/
+def inferTableFrozen (tm : TableMem N K) (obs : List PartMeta) : Option Nat × List String × List String :=
+  let tm1 := batchTable ["all"] tm
+  let cur := tm1.parts.map (fun p => coreOf p.toMeta)
+  let newId := tm.nextId
+  let keysOf (id : Nat) : List String := ((obs.find? (fun m => m.id = id)).map (·.keys)).getD [hexAll]
+  if obs.map coreOf = cur then (none, keysOf newId, [hexAll])
+  else
+    let cid := tm1.nextId
+    let cand (i : Nat) : List (Nat × Nat × Nat) :=
+      match cur.drop i with
+      | [] => cur
+      | first :: rest => cur.take i ++ [(cid, first.2.1, ((first :: rest).map (·.2.2)).sum)]
+    match (List.range cur.length).find? (fun i => cand i = obs.map coreOf) with
+    | some i => (some i, keysOf newId, keysOf cid)
+    | none => (none, keysOf newId, [hexAll])
+
+def inferFlushFrozen (s : Sim) (obs : List ObsPart) : FlushIn N :=
+  let per := s.tables.filterMap (fun t =>
+    match s.w.mem.tables t with
+    | none => none
+    | some tm =>
+      let o := sortMetas ((obs.filter (fun p => p.table = t)).map (·.pm))
+      some (t, inferTableFrozen tm o))
+  { compactions := per.filterMap (fun x => x.2.1.map (fun i => (x.1, i))),
+    keysNew := fun t => ((per.find? (fun x => x.1 = t)).map (·.2.2.1)).getD [hexAll],
+    keysCompact := fun t => ((per.find? (fun x => x.1 = t)).map (·.2.2.2)).getD [hexAll] }
+
+/-- One step of the interleaved machine (`istep`); a step that is not enabled in the model state is a fault of the line. -/
+def Sim.applyI (s : Sim) (op : IOp N K) (isFlushEnd : Bool) : Sim :=
+  match istep (params s.maxWal) ⟨s.w, s.fl, s.pending, s.done⟩ op with
+  | .ok iw => { s with w := iw.w, fl := iw.fl, pending := iw.pending, done := iw.done, lastWasFlush := isFlushEnd, inter := true, lastEff := [] }
+  | .error (.fault e) => { s with fault := some (toString e), inter := true }
+  | .error .disabled => { s with fault := some "step-not-enabled", inter := true }
+
+def Sim.noteQ (s : Sim) : Sim := { s with qMarks := s.qMarks ++ [s.nIngest] }
+
 def Sim.applyOp (s : Sim) (op : Op N K) (isFlush : Bool) : Sim :=
   match step (params s.maxWal) s.w op with
   | .ok w' => { s with w := w', ops := s.ops ++ [op], lastWasFlush := isFlush }
@@ -176,7 +232,7 @@ def Sim.stepTok (s : Sim) (tok : String) : Sim :=
     | some r =>
       let ts := r.flatMap (fun sh => match sh.1 with | .user n => [TName.user n, TName.metaCols n] | t => [t])
       let s' := s.applyOp (.ingest r 0) false
-      { s' with tables := addNew s'.tables ts, lastEff := ingestPhases s.w }
+      { s' with tables := addNew s'.tables ts, lastEff := ingestPhases s.w, nIngest := s.nIngest + 1, sinceFreezeN := s.sinceFreezeN + 1 }
   | 'F' :: _ | 'B' :: _ =>
     match parseCatalogue (tok.drop 1).toString with
     | none => { s with fault := some "bad-op" }
@@ -190,8 +246,32 @@ def Sim.stepTok (s : Sim) (tok : String) : Sim :=
         | .ok st => flushPhases s2.tables s2.w st
         | .error _ => []
       let isB := tok.startsWith "B"
-      { (s2.applyOp (.flush fi) true) with lastEff := (if isB then s.lastEff else []) ++ ph }
-  | ['R'] => { (s.applyOp (.restart (fun _ r => r)) false) with lastEff := [] }
+      if s.fl.isSome then { s with fault := some "flush-while-in-flight" } else
+      { (s2.applyOp (.flush fi) true) with lastEff := (if isB then s.lastEff else []) ++ ph, sinceFreezeN := 0 }
+  | ['R'] =>
+    if s.fl.isSome || !s.pending.isEmpty then { s with fault := some "restart-not-clean" } else
+    { (s.applyOp (.restart (fun _ r => r)) false) with lastEff := [] }
+  | ['Q'] => (s.applyI .forceReq false).noteQ
+  | 'Z' :: 'b' :: _ =>
+    match (tok.drop 2).toString.toNat? with
+    | some k => { (s.applyI (.flushBegin k) false) with sinceFreezeN := 0 }
+    | none => { s with fault := some "bad-op" }
+  | 'Z' :: 'p' :: _ =>
+    match parseCatalogue (tok.drop 2).toString with
+    | none => { s with fault := some "bad-op" }
+    | some obs =>
+      let parts : List ObsPart := (obs.map (·.2)).getD []
+      let s1 := { s with dirs := parts.foldl (fun (acc : List (TName N × String)) (p : ObsPart) => if acc.any (fun d => d.1 = p.table) then acc else acc ++ [(p.table, p.dir)]) s.dirs,
+                         lastObs := obs }
+      let fi := inferFlushFrozen s1 parts
+      s1.applyI (.flushBatch fi) false
+  | ['Z', 'm'] => s.applyI .flushMeta false
+  | ['Z', 'd'] => s.applyI .flushGcParts false
+  | ['Z', 'x'] => s.applyI .flushGcWal true
+  | 'A' :: _ =>
+    match (tok.drop 1).toString.toNat? with
+    | some i => { s with answered := s.answered ++ [i], inter := true }
+    | none => { s with fault := some "bad-op" }
   | _ => { s with fault := some "bad-op" }
 
 def parseCfgMaxWal (tok : String) : Nat :=
@@ -392,5 +472,52 @@ def judgeListing (obs : Option (Nat × List ObsPart)) (ltok : String) : String :
     let missing := expected.filter (fun x => !(listed.contains x))
     if extra.isEmpty && missing.isEmpty && listed.length = expected.length then "OK"
     else s!"BAD extra={showList id extra} missing={showList id missing}"
+
+/-- C18 spec for histories with interleaved flushes, judged on the OBSERVED listing and catalogue after a completed
+    flush: exactly the catalogue file, the files the observed catalogue refers to, and the log segments of the
+    `k` ingestion calls that returned since that flush froze the buffers (ids `cursor .. cursor+k`, cursor = the one
+    stored in the observed catalogue) — nothing the flush captured, nothing else. -/
+def judgeListingInter (obs : Option (Nat × List ObsPart)) (k : Nat) (ltok : String) : String :=
+  let listed := if ltok = "L[]" then [] else (ltok.drop 1).toString.splitOn ","
+  match obs with
+  | none => "BAD no-catalogue-after-flush"
+  | some (cur, parts) =>
+    let wal := (List.range' cur k).map (fun id => "x" ++ hexAscii s!"wal/{id}.wal")
+    let expected := sortStrs ((("x" ++ hexAscii "meta") :: parts.flatMap (fun p => p.pm.keys.map (fun k => partPathTok p.dir p.pm.id k))) ++ wal)
+    let extra := listed.filter (fun x => !(expected.contains x))
+    let missing := expected.filter (fun x => !(listed.contains x))
+    if extra.isEmpty && missing.isEmpty && listed.length = expected.length then "OK"
+    else s!"BAD extra={showList id extra} missing={showList id missing}"
+
+/-- C18 spec for force_flush, judged on the observed listing: a `Q` call the harness saw return (`A<i>`) was registered
+    when `mark` ingestion calls had returned; their segments (ids `< mark`) must be gone. -/
+def judgeAnswered (s : Sim) (ltok : String) : String :=
+  let listed := if ltok = "L[]" then [] else (ltok.drop 1).toString.splitOn ","
+  let bad := s.answered.filterMap (fun i =>
+    match s.qMarks[i]? with
+    | none => some s!"req{i}:unknown"
+    | some mark =>
+      match (List.range mark).find? (fun id => listed.contains ("x" ++ hexAscii s!"wal/{id}.wal")) with
+      | some id => some s!"req{i}:registered-after-{mark}-calls:segment-{id}-still-there"
+      | none =>
+        match s.lastObs with
+        | some (cur, _) => if cur < mark then some s!"req{i}:registered-after-{mark}-calls:cursor-{cur}" else none
+        | none => if mark = 0 then none else some s!"req{i}:no-catalogue")
+  if bad.isEmpty then "OK" else "BAD force_flush-answered-before-flushed " ++ ",".intercalate bad
+
+/-- Ingestion-latency stream (C18): `n` back-to-back calls of sizes `sizes`, limit `limit`, accounted size `pre` at
+    the start (recovered log).  A call waits while the accounted size exceeds the limit (`ingestWaits`); while it
+    waits nothing but the flush thread can act, which flushes iff ITS condition holds (`flushTriggered`, with no
+    request pending and the file-count trigger off); the freeze block resets the size. -/
+def latencyModel (limit pre : Nat) (sizes : List Nat) : String :=
+  let P := params limit
+  let mk (ws : Nat) : IWorld N K := ⟨{ (initWorld P) with mem := { (initWorld P).mem with walSize := ws } }, none, [], []⟩
+  let rec go (ws : Nat) : List Nat → String
+    | [] => "returned"
+    | b :: bs =>
+      if decide (ingestWaits P (mk ws)) then
+        if decide (flushTriggered P 1000000000 (mk ws)) then go (0 + b) bs else "hang:ingest"
+      else go (ws + b) bs
+  go pre sizes
 
 end LM.Store.Drv
